@@ -74,6 +74,13 @@ def gen_ngram(r):
         c["min_occurrences"] = None
     if c["min_occurrences"] and r.random() < 0.5:
         c["mask"] = "[M]"
+    c["ngram_dictionary"] = None
+    if not c["min_occurrences"] and not c["token_dictionary"] and c["beh"] == "exact" and r.random() < 0.3:
+        # user-supplied column dictionary: permuted and/or partial numbering of the n-grams present
+        grams = sorted(set(g for d in docs for g in ngrams(d, n, "exact")))
+        r.shuffle(grams)
+        grams = grams[: max(1, len(grams) - r.choice([0, 0, 1, 2]))]
+        c["ngram_dictionary"] = [list(g) for g in grams]
     return c
 
 
@@ -88,6 +95,8 @@ def check_ngram(ctx, c):
         kw["token_dictionary"] = {t: i for i, t in enumerate(c["token_dictionary"])}
     if c["mask"]:
         kw["mask_string"] = c["mask"]
+    if c.get("ngram_dictionary"):
+        kw["ngram_dictionary"] = {(g[0] if n == 1 else tuple(g)): j for j, g in enumerate(c["ngram_dictionary"])}
     name = "NgramVectorizer"
 
     def viol(clause, what, detail=None):
@@ -130,6 +139,11 @@ def check_ngram(ctx, c):
         expcols = expcols | {(c["mask"],)}
     if n == 1 and not c["token_dictionary"]:
         expcols = {(t,) for t in kept} | ({(c["mask"],)} if c["mask"] else set())
+    if c.get("ngram_dictionary"):
+        expcols = {tuple(g) for g in c["ngram_dictionary"]}
+        if {g: j for g, j in lab.items()} != {tuple(g): j for j, g in enumerate(c["ngram_dictionary"])}:
+            viol("supplied-ngram-dictionary-not-used-as-given", "column_label_dictionary_ differs from the supplied ngram_dictionary")
+            return
     if set(lab) != expcols:
         viol("column-set", "fitted n-gram columns differ from the n-grams present in the (kept-token) training sequences",
              {"missing": sorted(expcols - set(lab))[:8], "extra": sorted(set(lab) - expcols)[:8]})
